@@ -34,3 +34,22 @@ for c in $CHECKS; do
 done
 git -C /repo worktree remove --force $WT
 cat $R
+/venv/bin/python - "$P" "$N" "$D" <<'PY'
+import json,sys,os
+P,N,D=sys.argv[1:4]
+am={}
+try: am=json.load(open(os.path.join(D,'agent_meta.json')))
+except Exception: pass
+res=open(os.path.join(D,'result.txt')).read().splitlines()
+kv=dict(l.split('=',1) for l in res if '=' in l and not l.startswith(' ') and not l.startswith('check'))
+checks=[l for l in res if l.startswith('check ')]
+meta={"property":P,"seed":"%s-%s"%(P,N),
+ "summary":am.get("summary"),"breaks":am.get("breaks"),"needs":am.get("needs"),
+ "confirmed":{"repo_head":kv.get("repo_head"),"patch_applies":kv.get("patch_applies"),"imports":kv.get("import_rc")=="0",
+   "demo_exit_without_change":kv.get("demo_without_change_rc"),"demo_exit_with_change":kv.get("demo_with_change_rc"),
+   "test_suite_with_change":next((l[7:] for l in res if l.startswith("suite: ")),None)},
+ "what_i_ran":["tools/verify_seed.sh %s %s <agent outdir> (scratch worktree of /repo HEAD; baseline pytest command; ./check with VERIF_REPO=<worktree>)"%(P,N)],
+ "check_verdicts":checks,
+ "caught_by":[l.split()[1].rstrip(':') for l in checks if "violations=0" not in l]}
+json.dump(meta,open(os.path.join(D,'meta.json'),'w'),indent=1)
+PY
